@@ -29,7 +29,9 @@ type Prog struct {
 	GapsA    []int           `json:"gaps_a"` // distance between block numbers (cyclic)
 	CutsB    []bool          `json:"cuts_b"`
 	GapsB    []int           `json:"gaps_b"`
-	RestartB int             `json:"restart_b"` // batching B: restart the process after every n-th block (0: never)
+	RestartB int             `json:"restart_b"`           // batching B: restart the process after every n-th block (0: never)
+	MarkersA []bool          `json:"markers_a,omitempty"` // empty progress-marker BlockLogs after block j (cyclic)
+	MarkersB []bool          `json:"markers_b,omitempty"`
 }
 
 func gen(t *rapid.T) Prog {
@@ -39,6 +41,8 @@ func gen(t *rapid.T) Prog {
 	p.CutsB = rapid.SliceOfN(rapid.Bool(), 1, 12).Draw(t, "cuts_b")
 	p.GapsB = rapid.SliceOfN(rapid.IntRange(1, 4), 1, 4).Draw(t, "gaps_b")
 	p.RestartB = rapid.SampledFrom([]int{0, 0, 1, 2, 3}).Draw(t, "restart_b")
+	p.MarkersA = rapid.SliceOfN(rapid.Bool(), 0, 5).Draw(t, "markers_a")
+	p.MarkersB = rapid.SliceOfN(rapid.Bool(), 0, 5).Draw(t, "markers_b")
 	return p
 }
 
@@ -89,7 +93,7 @@ func descs(e []regsim.ExpTask) []string {
 }
 
 // runBatching executes one batching and returns the final state.
-func runBatching(res *prog.Result, label string, sc regsim.Scenario, cuts []bool, gaps []int, restartEvery int, classes map[string]bool) (regsim.Snapshot, *prog.Result) {
+func runBatching(res *prog.Result, label string, sc regsim.Scenario, cuts []bool, gaps []int, markers []bool, restartEvery int, classes map[string]bool) (regsim.Snapshot, *prog.Result) {
 	var zero regsim.Snapshot
 	st, err := regsim.OpenStore(false)
 	if err != nil {
@@ -103,6 +107,7 @@ func runBatching(res *prog.Result, label string, sc regsim.Scenario, cuts []bool
 	}
 	m := regsim.NewModel()
 	pre, blocks := regsim.Cut(sc, cuts, gaps)
+	blocks = regsim.WithMarkers(blocks, markers)
 	doMeta := func(idx []int) *prog.Result {
 		for _, i := range idx {
 			e := sc.Events[i]
@@ -123,9 +128,23 @@ func runBatching(res *prog.Result, label string, sc regsim.Scenario, cuts []bool
 			out := m.Apply(sc.Us, sc.Events[i], b.Number)
 			exp = append(exp, out.Tasks...)
 			classes[out.Class] = true
+			if e := sc.Events[i]; e.K == "vadd" && out.Class == "vadd:mal:ops-unknown" && strings.Contains(e.Note, "refused id") {
+				classes["vadd:mal:ops-unknown:id-of-refused-operator"] = true
+			}
+			if e := sc.Events[i]; e.K == "vadd" && !sort.SliceIsSorted(e.Ops, func(a, b int) bool { return e.Ops[a] < e.Ops[b] }) {
+				classes["unsorted-committee:"+out.Class] = true
+				if out.Own && len(e.Ops) > 0 && e.Ops[0] != m.Self {
+					classes["unsorted-committee:own-share-not-at-sorted-position"] = true
+				}
+			} else if (e.K == "liq" || e.K == "react") && out.Own && !sort.SliceIsSorted(e.Ops, func(a, b int) bool { return e.Ops[a] < e.Ops[b] }) {
+				classes["unsorted-cluster-ids:"+out.Class] = true
+			}
 			what = append(what, fmt.Sprintf("#%d %s->%s", i, sc.Events[i].K, out.Class))
 		}
 		m.HasLast, m.Last = true, b.Number
+		if len(b.Events) == 0 {
+			classes["empty-progress-marker-block"] = true
+		}
 		where := fmt.Sprintf("%s block %d (number %d: %s)", label, bi, b.Number, strings.Join(what, ", "))
 		tasks, err, _ := env.Deliver(regsim.Logs(sc, b))
 		if err != nil {
@@ -178,11 +197,11 @@ func run(p Prog) *prog.Result {
 		return res
 	}
 	classes := map[string]bool{}
-	a, r := runBatching(res, "batching A", p.Sc, p.CutsA, p.GapsA, 0, classes)
+	a, r := runBatching(res, "batching A", p.Sc, p.CutsA, p.GapsA, p.MarkersA, 0, classes)
 	if r != nil {
 		return r
 	}
-	b, r := runBatching(res, "batching B", p.Sc, p.CutsB, p.GapsB, p.RestartB, classes)
+	b, r := runBatching(res, "batching B", p.Sc, p.CutsB, p.GapsB, p.MarkersB, p.RestartB, classes)
 	if r != nil {
 		return r
 	}
